@@ -200,7 +200,7 @@ PROPS = {
     },
     "C11": {
         "level": EXPL,
-        "plan": [{"engine": "shipsim2", "timeout": T_SIM}, {"engine": "shipsim1", "timeout": T_SIM}, {"engine": "hubnet", "timeout": {"quick": 900, "thorough": 5400}, "shards": 12}],
+        "plan": [{"engine": "shipsim2", "timeout": T_SIM}, {"engine": "shipsim1", "timeout": T_SIM}, {"engine": "hubnet", "perturb": True, "perturb_mode": "sleep", "perturb_scale": 1.0, "timeout": {"quick": 900, "thorough": 5400}, "shards": 12}],
         "rule": "connection level (bubbles): every close cause (local graceful/unsafe close, unregister, peer announce/confirm, transport error, handshake error, abort, application write after the peer closed) and "
                 "ordered pairs of causes at virtual offsets 0/1 ms/499/500/501 ms/1 s on two real endpoints, plus all one-endpoint histories: HandleConnectionClosed exactly once per ended connection, "
                 "never for an open one; a local operation that never returns is a violation (watchdog); hub level (real hubs): pair scenarios with disconnects from either/both sides, cuts, restarts, double connections: "
